@@ -1,5 +1,6 @@
 (* C16 — persistence storages: generated annotation names.  Only statements here; proofs in Proofs/. *)
 From Coq Require Import ZArith NArith List String Bool Ascii.
+From KV Require Import Proofs.StoragePurge.
 From KV Require Import Base.Json Base.Dicts Model.Keys Model.Storage Proofs.Keys Proofs.JsonMerge Proofs.Storage.
 Import ListNotations.
 
@@ -77,6 +78,21 @@ Theorem C16_roundtrip_pending : forall dg prefix v1 verbose tk key record body a
   = Ok (Some (JObj (if verbose then record else drop_nulls record))).
 Proof. exact ann_roundtrip_pending. Qed.
 Print Assumptions C16_roundtrip_pending.
+
+(* Purged completely: after purge - whatever is on the object, whatever is pending in the cycle's shared patch under
+   metadata.annotations (nothing, or any annotations incl. a value for this very key from an earlier store) - the record
+   cannot be read back from the object as patched by an RFC 7386 server, under any of the storage's keys (v2 and v1, with
+   the -ofDRS mark where it applies), for every prefix, id and body. *)
+Theorem C16_purged_completely : forall dg prefix v1 verbose tk key body p anns patch,
+  ann_patch p anns -> nodup_keys (map fst anns) = true ->
+  ppurge dg (PAnn prefix v1 verbose tk) key body p = Ok patch ->
+  pfetch dg (PAnn prefix v1 verbose tk) key (merge body patch) = Ok None.
+Proof. exact ann_purge_complete. Qed.
+Print Assumptions C16_purged_completely.
+
+(* the two shapes of [ann_patch]: a fresh patch, and one with pending annotations *)
+Example C16_purge_shapes : ann_patch (JObj []) [] /\ forall anns, ann_patch (pending anns) anns.
+Proof. split; constructor. Qed.
 
 (* Isolation: storing a record leaves every annotation that is neither one of its own keys nor the marker, and
    every top-level field other than metadata, exactly as it was. *)
